@@ -95,6 +95,8 @@ def run_harness(binp, prog_file, ev_file, timeout=3000, mode="run"):
     return info
 
 
+MAX_TRACE_BYTES = 48 << 20
+
 LINE_RE = re.compile(r'^<<"(VIOL|DEV|NOTE|INFO)", (.*)>>$')
 
 
@@ -213,6 +215,30 @@ def campaign(name, programs, workdir, feat="ref", spec="TraceFatFs", n_shards=No
                         pass
     fold = "ascii" if feat == "nounicode" else "unicode"
     t0 = time.time()
+    # a trace file is deserialised as a whole by TLC: keep the pieces small (cut only where a program begins)
+    if spec in ("TraceFatFs", "TraceB"):
+        pieces = []
+        for k, pf, ef in files:
+            if os.path.getsize(ef) <= MAX_TRACE_BYTES:
+                pieces.append((k, pf, ef))
+                continue
+            part, size, out = 0, 0, None
+            with open(ef) as f:
+                for ln in f:
+                    if out is None or (size > MAX_TRACE_BYTES and '"op":"begin"' in ln):
+                        if out:
+                            out.close()
+                        part += 1
+                        pn = ef[:-7] + ".%02d.ndjson" % part
+                        out = open(pn, "w")
+                        pieces.append((k * 100 + part, pf, pn))
+                        size = 0
+                    out.write(ln)
+                    size += len(ln)
+            if out:
+                out.close()
+            os.remove(ef)
+        files = pieces
 
     def one(f):
         k, pf, ef = f
